@@ -124,14 +124,6 @@ Proof.
            ++ injection H as <- _. eexists. split; [reflexivity|]. fin_krel.
 Qed.
 
-(** closing a branch (with or without multiplication) never touches the ring table *)
-Lemma close_branch_cycle rest st st1 : close_branch rest st = Ok st1 -> s_cycle st1 = s_cycle st.
-Proof.
-  unfold close_branch. destruct (rev (s_branch_anchor st)) as [|a ra]; [discriminate|].
-  destruct (fnc0 rest fnc_eon_a) as [eon_a|]; cbn [bind]; [|discriminate].
-  match goal with |- (bind ?m _ = _ -> _) => destruct m as [[[[[[g cu] pn] ba] rc] pb]|] end; cbn [bind]; [|discriminate].
-  intros H. injection H as <-. reflexivity.
-Qed.
 (** one iteration: the new ring table is the one the look-ahead loop computed *)
 Lemma node_step_cycle fo st pc nm rest st1 : node_step fo st pc nm rest = Ok st1 ->
   exists rs rdx, ring_scan (s_current st) rest 0 (clean_st (s_cycle st) []) = Ok (rs, rdx) /\ s_cycle st1 = r_cyc rs.
@@ -144,12 +136,7 @@ Proof.
   destruct (parse_graph_base_node fo nm) as [a|]; cbn [bind]; [|discriminate].
   match goal with |- (bind ?m _ = _ -> _) => destruct m as [rc'|] end; cbn [bind]; [|discriminate].
   destruct (add_nodes _ _ _ _ _ _ _ _) as [[[[g cu] pn] pb]|]; cbn [bind]; [|discriminate].
-  destruct (fnc0 rest fnc_next_open) as [io|]; cbn [bind]; [|discriminate].
-  destruct (fnc0 rest fnc_next_close) as [ic|]; cbn [bind]; [|discriminate].
-  intros H. exists rs, rdx. split; [reflexivity|].
-  destruct (Nat.ltb ic io).
-  - apply close_branch_cycle in H. exact H.
-  - injection H as <-. reflexivity.
+  intros H. exists rs, rdx. split; [reflexivity|]. apply close_all_cycle in H. exact H.
 Qed.
 
 Theorem loop_marker_trace fo : forall fuel pc s st st1,
